@@ -4,7 +4,7 @@ from __future__ import annotations
 import itertools
 from typing import Any, Iterator
 
-from ..explore import charspace, corpus, linebfs, tokspace
+from ..explore import charspace, corpus, linebfs, pylib, spell, tokspace
 from ..oracle import cpy_tok, run
 
 ID = "C09"
@@ -20,8 +20,8 @@ RULE = (
     "places in the sequence. Non-trivial = inside the domain with >= 3 significant tokens (distinct texts)."
 )
 BOUND = {
-    "quick": "numbers^<=5; prefixes x quotes x bodies^<=3; operator pairs; indentation 11^<=4; pylay^<=5 (^<=4 in brackets); E-LINE depth 4; files",
-    "thorough": "numbers^<=6; prefixes x quotes x bodies^<=3; operator triples; indentation 11^<=5; pylay^<=6 (^<=5 in brackets); E-LINE depth 6; files",
+    "quick": "numbers^<=5; prefixes x quotes x bodies^<=3; operator pairs; indentation 11^<=4; pylay^<=5 (^<=4 in brackets); E-LINE depth 4; files; identifiers^<=3 over 17 character classes; " + pylib.describe("quick") + " (those without f-strings)",
+    "thorough": "numbers^<=6; prefixes x quotes x bodies^<=3; operator triples; indentation 11^<=5; pylay^<=6 (^<=5 in brackets); E-LINE depth 6; files; identifiers^<=3 over 17 character classes; " + pylib.describe("thorough") + " (those without f-strings)",
 }
 ASSUMPTIONS = ["CPython 3.12.1's tokenize module is the reference; its documented leniencies are excluded by rule, not by instance"]
 
@@ -51,6 +51,8 @@ def units(tier: str) -> list[tuple]:
     us += charspace.units("pylay", "paren", 4 if q else 5)
     us.append(("eline", 4 if q else 6))
     us.append(("files",))
+    us += pylib.units(tier, "tokens")
+    us += spell.ident_units()
     for v in ("expr", "lit"):
         us += tokspace.units(v, 3)
     return us
@@ -100,6 +102,10 @@ def cases(unit: tuple) -> Iterator[Any]:
     elif k == "tok":
         for s, _ in tokspace.expand(unit):
             yield s
+    elif k == "pylib":
+        yield from pylib.expand(unit)
+    elif k == "spell":
+        yield from spell.expand(unit)
     elif k == "files":
         for _, src in sorted(corpus.python_files().items()):
             yield src
@@ -122,8 +128,16 @@ def run_unit(unit: tuple, acc: Any) -> None:
 def check_case(case: Any, acc: Any) -> None:
     if isinstance(case, dict) and "lines" in case:
         return _eline(case, acc)
-    src = case["src"] if isinstance(case, dict) else case
-    if not run.python_lexicon(src) or ">&" in src or "@(" in src:
+    if isinstance(case, dict) and "pylib" in case:
+        src = pylib.read(case["pylib"])
+        if src is None or pylib.code_has_at_paren(src) or "\ufeff" in src:
+            acc.count("lib:outside")
+            return
+    else:
+        src = case["src"] if isinstance(case, dict) else case
+    if isinstance(case, dict) and "pylib" in case:
+        pass  # '$', '?', '!' ... inside the strings and comments of a program CPython accepts are no xonsh lexemes
+    elif not run.python_lexicon(src) or ">&" in src or "@(" in src:
         acc.count("outside:xonsh-lexeme")
         return
     r = cpy_tok.compare(src)
@@ -137,6 +151,9 @@ def check_case(case: Any, acc: Any) -> None:
         acc.count("outside:" + str(r[1]).split(":")[0])
         return
     acc.count("DIFF")
+    if isinstance(case, dict) and "pylib" in case:
+        acc.violation(r[1] + " [standard-library file]", {"pylib": case["pylib"]}, r[2], text="")
+        return
     acc.violation(r[1], src, r[2])
 
 
